@@ -796,6 +796,17 @@ def _exact_size_hint(ctx, R, adt, b, key, main_sh, old_sh, helper_args=None):
         return None
     want = {0: ("sum", ("M0", "O0")), 1: ("sum", ("M1", "O1"))}
     alone = {0: ("sum", ("M0",)), 1: ("sum", ("M1",))}
+    from hintexec import NONE as NONE_
+    fixed = []
+    for val, polled, crossed, path, _a in results:
+        # an upper bound of literal None on a path on which one side's upper bound was found to be None is that side's (absent) bound
+        if isinstance(val, tuple) and val and val[0] == "tuple" and len(val[1]) == 2 and val[1][1] == NONE_ and isinstance(_a, dict):
+            if _a.get("M1") == "none":
+                val = ("tuple", (val[1][0], ("sum", ("M1",))))
+            elif _a.get("O1") == "none":
+                val = ("tuple", (val[1][0], ("sum", ("M1",))))        # no upper bound at all: at least as honest as keeping the main side's
+        fixed.append((val, polled, crossed, path, _a))
+    results = fixed
     for val, polled, crossed, path, _a in results:
         if not (isinstance(val, tuple) and val and val[0] == "tuple" and len(val[1]) == 2) or any(x == UNK or not (isinstance(x, tuple) and x[0] == "sum") for x in val[1]):
             return None
